@@ -41,6 +41,11 @@
 #include "instant.h"
 #include "nifty.h"
 
+#if defined ECHSE_VERIF
+/* ghost cells read by the verification harnesses only (/verif) */
+extern int verif_diff_days, verif_diff_ms;
+#endif	/* ECHSE_VERIF */
+
 static const unsigned int doy[] = {
 	0U, 0U, 31U, 59U, 90U, 120U, 151U, 181U, 212U, 243U, 273U, 304U, 334U,
 	365U, 396U, 424U, 455U, 485U, 516U, 546U, 577U, 608U, 638U, 669U, 699U,
@@ -200,6 +205,9 @@ echs_instant_diff(echs_instant_t end, echs_instant_t beg)
 		extra_df += doy_end - doy_beg;
 	}
 
+#if defined ECHSE_VERIF
+	verif_diff_days = extra_df, verif_diff_ms = intra_df;
+#endif	/* ECHSE_VERIF */
 	return (echs_idiff_t){(int64_t)extra_df * (int64_t)MSECS_PER_DAY + intra_df};
 }
 
